@@ -2,7 +2,6 @@ package main
 
 import (
 	"fmt"
-	"net"
 	"net/http"
 	"strings"
 
@@ -30,10 +29,7 @@ type c14Stack struct {
 }
 
 func c14Serve(h http.Handler) *c14Stack {
-	ln, err := net.Listen("tcp", "127.0.0.1:0")
-	if err != nil {
-		panic(err)
-	}
+	ln := vh.ListenLoopback()
 	srv := &http.Server{Handler: h}
 	go srv.Serve(ln)
 	return &c14Stack{addr: ln.Addr().String(), close: func() { srv.Close() }}
